@@ -365,7 +365,8 @@ theorem C01_symbolic_format (I : PairSetupHybrid.Interp) (hpub : PairSetupHybrid
     field …), except that the `A` and proof items of a complete M3 denote terms it can derive from its
     knowledge (it does not guess a 64-byte proof); the owner may unpair the accessory at any point; every
     answer is learnt.  Hardness is ONE explicit hypothesis, `NoForge`: for `A ≢ 0 (mod N)` no term computable
-    without the setup code, honest secrets and session secrets denotes the expected proof (DESIGN 2.2:
+    without the setup code, honest secrets and session secrets denotes the proof expected in an exchange
+    made from a public salt atom and a secret atom `b` (DESIGN 2.2:
     SRP-6a is a PAKE for such `A`; for `A ≡ 0` the executable model refuses by itself, `C01_reject_kN`).
     Then, from a driver without verifier and safe initial knowledge, along EVERY run: the knowledge stays
     safe (the code is never learnt) and no served request is answered with the accessory's proof, with
